@@ -46,13 +46,14 @@ Record config := mkCfg {
   mv_increments_rmw : bool;         (* DiscreteMotionValidator only uses ++ / += on them (one read-modify-write) *)
   ptc_flags_atomic : bool;          (* PlannerTerminationCondition: terminate_, evalValue_, signalThreadStop_ are std::atomic *)
   ptc_eval_terminate_first : bool;  (* eval() tests terminate_ before anything else, and terminate() writes nothing but terminate_ / the stop signal *)
+  prrt_atomic_steps : bool;         (* pRRT::threadSolve: nearest(), parent + add(), solution and approximate-solution updates are each one critical section *)
   pdef_solutions_locked : bool;     (* every method of PlannerSolutionSet takes its mutex first *)
   rng_seeds_locked : bool;          (* RNGSeedGenerator methods take the mutex; creation through call_once *)
   spaces_registry_locked : bool;    (* the registry of allocated state spaces is guarded by its mutex in every function that touches it *)
   console_locked : bool;            (* log output is serialised by a mutex *)
   gnat_query_no_shared_scratch : bool }.  (* the thread-safe GNAT keeps no mutable per-query scratch data in the object *)
 Definition config_ok (c : config) : bool :=
-  mv_counters_atomic c && mv_increments_rmw c && ptc_flags_atomic c && ptc_eval_terminate_first c && pdef_solutions_locked c && rng_seeds_locked c &&
+  mv_counters_atomic c && mv_increments_rmw c && ptc_flags_atomic c && ptc_eval_terminate_first c && prrt_atomic_steps c && pdef_solutions_locked c && rng_seeds_locked c &&
   spaces_registry_locked c && console_locked c && gnat_query_no_shared_scratch c.
 (* the schedule shape a configuration allows for the motion counters: atomic increments only, or read/write pairs *)
 Definition counter_events_ok (c : config) (sched : list cev) : bool :=
